@@ -11,6 +11,7 @@ if [ "${ROUND:-}" = c ]; then SRC=/tmp/mutc-$P-out; ID=$((N+4)); fi
 if [ "${ROUND:-}" = d ]; then SRC=/tmp/mutd-$P-out; ID=$((N+6)); fi
 if [ "${ROUND:-}" = e ]; then SRC=/tmp/mute-$P-out; ID=$((N+8)); fi
 if [ "${ROUND:-}" = f ]; then SRC=/tmp/mutf-$P-out; ID=$((N+10)); fi
+if [ "${ROUND:-}" = g ]; then SRC=/tmp/mutg-$P-out; ID=$((N+12)); fi
 WT=/tmp/seedchk-$P-$ID
 export GOFLAGS=-mod=mod GOPROXY=off GOSUMDB=off GOTOOLCHAIN=local
 git -C /repo worktree remove --force $WT 2>/dev/null
